@@ -3,7 +3,8 @@ import base64
 import hashlib
 
 from ..framework import Prop, mk, guarded, ensure_repo_on_path
-from .c13 import CHAINS, N, P, HALF, secrets
+from .c13 import CHAINS, N, P, HALF, secrets, hist_shrinks
+from . import c13_hist as H
 
 MAGIC = 'Bitcoin Signed Message:\n'
 ALPH = ['a', 'Z', '0', ' ', '\n', '\t', '\x00', '\x7f', '\x80', 'é', 'ß', 'Ж', '߿', 'ࠀ', '€', '中',
@@ -65,7 +66,9 @@ class C14(Prop):
                     'Lean String.toUTF8 is the reference UTF-8 encoder; addresses are compared as (version, payload), '
                     'the base58 text level is injective by C10']
     assumptions = ['text messages are sequences of Unicode scalar values (no lone surrogates)']
-    rule = ('digest layout for UTF-8 byte lengths 0..300, 252/253/254/255/256, 65535/65536 (thorough) with default, '
+    rule = ('histories on live objects (bitcoin.* re-imported per history): 2..3 keys, SignMessage / recover_compact / '
+            'VerifyMessage alternately incl. after a failed recovery, stored addresses across chain switches; '
+            'digest layout for UTF-8 byte lengths 0..300, 252/253/254/255/256, 65535/65536 (thorough) with default, '
             'empty, long and non-ASCII magic; per key x compression x chain: SignMessage then header/recovery/own/'
             'other/p2sh/segwit/perturbed verdicts; sign_compact (r||s, recid) against the model of padding + recid '
             'search; recover_compact on Lean-signed signatures with every header class, r,s in {0,n,>=n,no-lift,'
@@ -85,6 +88,13 @@ class C14(Prop):
     def generate(self, rng, tier, shard, nshards):
         big = tier == 'thorough'
         i = 0
+        # (h) histories on live objects: several keys / signatures / addresses used alternately, incl. after a failed
+        #     recovery and across chain switches
+        mat = H.key_material(self, rng, 10)
+        for _ in range(40 if big else 5):
+            yield mk('c14.hist', '|'.join(H.gen_msg_history(rng, mat)), tag='hist-messages')
+        for _ in range(6 if big else 1):
+            yield mk('c14.hist', '|'.join(H.gen_chain_history(rng, mat)), tag='hist-chains')
         # (a) digest layout
         lens = list(range(0, 301)) + [65535, 65536, 65537] + ([70000, 1 << 17] if big else [])
         lens += [v for v in self.pool if 0 <= v <= 70000]
@@ -184,6 +194,13 @@ class C14(Prop):
 
         def text(s):
             return ''.join(chr(int(x)) for x in s.split(',')) if s else ''
+        if op == 'c14.hist':
+            c['aux'] = []
+
+            def f():
+                out, c['aux'] = H.run_hist(self, a[0])
+                return out
+            return guarded(f)
         try:
             if op == 'c14.digest':
                 return guarded(lambda: SM.BitcoinMessage(text(a[1]), text(a[0])).GetHash().hex())
@@ -251,6 +268,8 @@ class C14(Prop):
 
     def model_line(self, c):
         op, a = c['op'], c['args']
+        if op == 'c14.hist':
+            return '\t'.join(['c14.hist', a[0]] + list(c.get('aux', [])))
         if op == 'c14.msg':
             return '\t'.join(['c14.msg'] + list(a) + list(c.get('aux', ['00'])))
         if op == 'c14.signCompact':
@@ -259,3 +278,7 @@ class C14(Prop):
 
     def nontrivial(self, c, io):
         return True
+
+    def shrink_candidates(self, c):
+        if c['op'] == 'c14.hist':
+            yield from hist_shrinks(c)
